@@ -88,7 +88,8 @@ def lit(v):
     return "(0 - %d)" % (-x)
 
 
-STRS = [b"", b"0", b"7", b"-3", b"+4", b"x", b"07", b"9223372036854775808", b"ab", b"true"]
+STRS = [b"", b"0", b"7", b"-3", b"+4", b"x", b"07", b"010", b"08", b"0x10", b"0b11", b"0o17", b"1_000", b"1e3", b" 5", b"5 ", b"--1", b"+-2", b"-", b"+",
+        b"9223372036854775807", b"9223372036854775808", b"-9223372036854775808", b"-9223372036854775809", b"ab", b"true", b"1.5"]
 NUMS = [0, 1, -1, 2, 7, -3, M63 - 1, -M63]
 BOOLS = [True, False]
 VALUES = [("s", s) for s in STRS] + [("n", n) for n in NUMS] + [("b", b) for b in BOOLS]
@@ -141,7 +142,10 @@ def run(ctx):
     cases, meta = [], []
     combos = [(op, l, r) for op in OPS for l in VALUES for r in VALUES]
     if quick:
-        combos = rng.sample(combos, 1500)
+        # all operators x all values against a few partners, then a sample of the rest
+        partners = [("s", b"010"), ("n", 3), ("b", True), ("s", b""), ("n", 0)]
+        base = [(op, l, r) for op in OPS for l in VALUES for r in partners] + [(op, l, r) for op in OPS for l in partners for r in VALUES]
+        combos = base + rng.sample(combos, 800)
     for op, l, r in combos:
         exp = doc_table(op, l, r)
         if exp is None or exp == "div0":
